@@ -125,34 +125,44 @@ Proof.
 Qed.
 Print Assumptions C06_from_tags.
 
-(* FROM <expression>, every LIKE pattern well-formed: a well-formed expression compiles to a total closure with
-   the reference meaning and the visit returns exactly the partitions on which it is true; a malformed one is refused *)
-Theorem C06_from_expr_partial : forall up lo pm e l, expr_all (cond_like_ok up pm) e = true ->
-  if expr_all (cond_wf up) e
+(* FROM <expression>: an expression whose conditions are all acceptable (cond_ok: known operator, UPPER/LOWER nests of
+   one parameter, and a LIKE pattern that path.Match accepts) compiles to a total closure with the reference meaning
+   and the visit returns exactly the partitions on which it is true; any other expression is refused -- a nil func
+   is never handed to the visit.  About the code: build_source is the builder at [code_from_like_shadow], i.e.
+   `_, err = path.Match(..)` in buildTagCond, and K runs exactly this function. *)
+Theorem C06_from_expr : forall up lo pm e l,
+  if expr_all (cond_ok up pm) e
   then exists f, build_source up lo pm (SExpr (Some e)) = Some (Some f) /\
          visit (Some f) l = Ok (filter (fun d => ref_expr up lo pm e (d_tags d)) (map snd l))
   else build_source up lo pm (SExpr (Some e)) = None.
 Proof.
-  intros up lo pm e l HL. pose proof (source_expr_good up lo pm e HL) as G. unfold good in G.
+  intros up lo pm e l. pose proof (source_expr_good up lo pm e) as G. unfold good in G.
   destruct (build_source up lo pm (SExpr (Some e))) as [[f|]|].
   - destruct G as (-> & E). exists f. split; [reflexivity|]. apply visit_ext. exact E.
   - contradiction.
   - rewrite G. reflexivity.
 Qed.
-Print Assumptions C06_from_expr_partial.
+Print Assumptions C06_from_expr.
 
-(* refutation: with a malformed LIKE pattern no error is reported; the closure is a nil func (calling it panics) ... *)
-Theorem C06_from_expr_refuted : forall up lo pm, up OP_LIKE = OP_LIKE -> pm BADPAT PROBE = None ->
-  build_source up lo pm (SExpr (Some [[XC false (BCond c_like)]])) = Some None /\
+(* What the repair bought.  With the shadowed err of the earlier code (variant true of the builder: `_, err :=
+   path.Match(..)`) a malformed LIKE pattern is not reported; the closure is a nil func (calling it panics) ... *)
+Theorem C06_from_expr_shadowed_err_refuted : forall up lo pm, up OP_LIKE = OP_LIKE -> pm BADPAT PROBE = None ->
+  build_source_v up lo pm true (SExpr (Some [[XC false (BCond c_like)]])) = Some None /\
   forall k d l, visit None ((k, d) :: l) = Panic.
 Proof. intros up lo pm U B. split; [exact (like_nil_func up lo pm U B)|reflexivity]. Qed.
-Print Assumptions C06_from_expr_refuted.
+Print Assumptions C06_from_expr_shadowed_err_refuted.
 (* ... or silently the condition before it: `a = x AND ip LIKE "["` means `a = x` *)
-Theorem C06_from_expr_stale_refuted : forall up lo pm, up OP_LIKE = OP_LIKE -> up OP_EQ = OP_EQ -> pm BADPAT PROBE = None ->
-  exists f, build_source up lo pm (SExpr (Some [[XC false (BCond c_eq); XC false (BCond c_like)]])) = Some (Some f) /\
+Theorem C06_from_expr_shadowed_err_stale_refuted : forall up lo pm, up OP_LIKE = OP_LIKE -> up OP_EQ = OP_EQ -> pm BADPAT PROBE = None ->
+  exists f, build_source_v up lo pm true (SExpr (Some [[XC false (BCond c_eq); XC false (BCond c_like)]])) = Some (Some f) /\
     forall m, f m = Ok (bytes_eqb (get_or_empty A m) X).
 Proof. intros up lo pm U1 U2 B. exact (like_stale up lo pm U1 U2 B). Qed.
-Print Assumptions C06_from_expr_stale_refuted.
+Print Assumptions C06_from_expr_shadowed_err_stale_refuted.
+(* the code refuses both *)
+Theorem C06_from_expr_bad_like_refused : forall up lo pm, up OP_LIKE = OP_LIKE -> up OP_EQ = OP_EQ -> pm BADPAT PROBE = None ->
+  build_source up lo pm (SExpr (Some [[XC false (BCond c_like)]])) = None /\
+  build_source up lo pm (SExpr (Some [[XC false (BCond c_eq); XC false (BCond c_like)]])) = None.
+Proof. intros up lo pm U1 U2 B. exact (like_refused up lo pm U1 U2 B). Qed.
+Print Assumptions C06_from_expr_bad_like_refused.
 
 (* an empty FROM (nil source) selects every partition *)
 Theorem C06_from_empty : forall up lo pm l, build_source up lo pm (SExpr None) = Some (Some positive) /\
@@ -176,13 +186,14 @@ Proof.
   split; [vm_compute; reflexivity|]. intros t m Hin Hm.
   repeat (destruct Hin as [<-|Hin]; [vm_compute in Hm; injection Hm as <-; reflexivity|]). destruct Hin.
 Qed.
-(* an expression with NOT, AND, OR, a function and a well-formed LIKE pattern satisfies the hypotheses of
-   C06_from_expr_partial for ASCII upper/lower on these strings (identity stands in for ToUpper here) *)
+(* an expression with NOT, AND, OR, a function and a well-formed LIKE pattern is on the accepting side of
+   C06_from_expr (identity stands in for ToUpper here), the same with a malformed pattern on the refusing side *)
 Example C06_expr_nontrivial :
   let up := fun s : bytes => s in
   let pm := fun (p s : bytes) => Some (bytes_eqb p s) in
   let e := [[XC true (BCond {| c_ident := Ident A []; c_op := OP_EQ; c_value := X |});
              XC false (BExpr [[XC false (BCond {| c_ident := Ident FN_UPPER [Ident IP []]; c_op := OP_LIKE; c_value := X |})]])];
             [XC false (BCond {| c_ident := Ident IP []; c_op := OP_PREFIX; c_value := X |})]] in
-  expr_all (cond_like_ok up pm) e = true /\ expr_all (cond_wf up) e = true.
-Proof. vm_compute. split; reflexivity. Qed.
+  let pm_bad := fun (p s : bytes) => if bytes_eqb p X then None else Some (bytes_eqb p s) in
+  expr_all (cond_ok up pm) e = true /\ expr_all (cond_wf up) e = true /\ expr_all (cond_ok up pm_bad) e = false.
+Proof. vm_compute. repeat split; reflexivity. Qed.
